@@ -31,7 +31,7 @@ ASSUMPTIONS = ["repeatability is only claimed (and checked) for single-process r
                "uniqueness of samples is checked on the Forward payoff (strictly monotone, continuous): bit-equal stored values mean shared variates",
                "each run is a subprocess with a 300 s time-out; a time-out is inconclusive"]
 REQUIRED_COUNTERS = ["fresh_interpreter_repeats", "in_process_repeats", "seed_audits", "seedings_observed", "tagged_rows_consumed",
-                     "multi_worker_runs", "duplicate_value_scans", "seedings_observed_across_processes"]
+                     "multi_worker_runs", "duplicate_value_scans", "seedings_observed_across_processes", "uniform_variates_observed"]
 MIN_NONTRIVIAL = {"quick": 12, "thorough": 60}
 SHARD_TIMEOUT = {"quick": 1500, "thorough": 7200}
 
@@ -184,7 +184,16 @@ def run_case(case, R):
         if run["workers"] > 1:
             R.hit("multi_worker_runs")
         seedings = [e for e in events if e["kind"] == "seeding"]
-        events = [e for e in events if e["kind"] != "seeding"]
+        uniforms = [e for e in events if e["kind"] == "uniform"]
+        events = [e for e in events if e["kind"] not in ("seeding", "uniform")]
+        handed = Counter(v for e in uniforms for v in e["vals"])
+        R.hit("uniform_variates_observed", sum(handed.values()))
+        twice = [v for v, c in handed.items() if c > 1]
+        if twice:
+            mode_u = "single-process" if run["workers"] == 1 else "worker-pool"
+            R.violation(f"uniform-variates-handed-out-more-than-once-{mode_u}-{run['engine']}", f"{tag}, {run['workers']} process(es): {len(twice)} of the "
+                        f"{len(handed)} distinct uniform variates returned by Uniform.sample were returned more than once (e.g. {float.fromhex(twice[0])!r}, "
+                        f"{handed[twice[0]]} times; {len({e['pid'] for e in uniforms})} process(es))", wit)
         R.hit("seedings_observed_across_processes", len(seedings))
         _cross_process_seed_audit(R, seedings, tag, run, wit)
         R.hit("tagged_rows_consumed", len(events))
